@@ -392,7 +392,15 @@ class SignatureV4(Signature):
 
     @property
     def signer(self):
-        return self.subpackets['Issuer'][-1].issuer
+        if 'Issuer' in self.subpackets:
+            return self.subpackets['Issuer'][-1].issuer
+
+        # RFC 4880 does not require an Issuer subpacket; a signature may name its issuer by fingerprint only,
+        # and the key id of a v4 key is the low 64 bits of its fingerprint
+        if 'IssuerFingerprint' in self.subpackets:
+            return self.subpackets['IssuerFingerprint'][-1].issuer_fingerprint.keyid
+
+        return ''
 
     def __init__(self):
         super(Signature, self).__init__()
